@@ -240,24 +240,27 @@ theorem coalesce_idempotent (s : Stream) : coalesce (coalesce s) = coalesce s :=
 
 /-- **xml_layer_tree.** When the handler calls Expat makes are the traversal of a forest (prolog,
     root element, epilog; character data split into pieces in any way; namespace declarations
-    reported around their element), then however the calls are batched the parser delivers the
+    reported around their element; default-handler calls for white space outside the root and for the
+    internal DTD subset, none of them a reference), then however the calls are batched the parser delivers the
     flattening of that forest with adjacent text merged — START_NS/END_NS bracket their element —
     and raises nothing. -/
-theorem xml_layer_tree (doc : List XNode) (reads : List (List (Item XmlCb))) (close : List (Item XmlCb))
+theorem xml_layer_tree (doc : List XNode) (hwf : wfList doc = true)
+    (reads : List (List (Item XmlCb))) (close : List (Item XmlCb))
     (h : reads.flatten ++ close = (callbacksList doc).map Item.cb) :
     xmlParse (reads.map XmlReadG.chunk) close = (coalesce (flattenList (toNodesList doc)), none) := by
   obtain ⟨a1, _, a3⟩ := parse_vs_eager xmlLayer xmlHandler () ((reads.map XmlReadG.chunk).map XmlReadG.toRead) close
-  rw [xmlReads_items, h, eager_xml_forest] at a1 a3
+  rw [xmlReads_items, h, eager_xml_forest doc hwf] at a1 a3
   simp only [Option.map_none] at a1 a3
   unfold xmlParse
   exact Prod.ext (a3 trivial) a1
 
 /-- the stream of a tree traversal is well nested and has no adjacent text -/
-theorem xml_tree_wellformed (doc : List XNode) (reads : List (List (Item XmlCb))) (close : List (Item XmlCb))
+theorem xml_tree_wellformed (doc : List XNode) (hwf : wfList doc = true)
+    (reads : List (List (Item XmlCb))) (close : List (Item XmlCb))
     (h : reads.flatten ++ close = (callbacksList doc).map Item.cb) :
     WellNested (xmlParse (reads.map XmlReadG.chunk) close).1 ∧
     noAdjText (xmlParse (reads.map XmlReadG.chunk) close).1 = true := by
-  rw [xml_layer_tree doc reads close h]
+  rw [xml_layer_tree doc hwf reads close h]
   refine ⟨?_, noAdjText_coalesceGo true _ none⟩
   unfold WellNested
   simp only [coalesce]
@@ -266,10 +269,11 @@ theorem xml_tree_wellformed (doc : List XNode) (reads : List (List (Item XmlCb))
 
 /-- the same with the merging done on the tree: the stream is the flattening of the document forest
     in which each maximal run of character data is one text node -/
-theorem xml_layer_tree_merged (doc : List XNode) (reads : List (List (Item XmlCb))) (close : List (Item XmlCb))
+theorem xml_layer_tree_merged (doc : List XNode) (hwf : wfList doc = true)
+    (reads : List (List (Item XmlCb))) (close : List (Item XmlCb))
     (h : reads.flatten ++ close = (callbacksList doc).map Item.cb) :
     xmlParse (reads.map XmlReadG.chunk) close = (flattenList (mergeForest (toNodesList doc)), none) := by
-  rw [xml_layer_tree doc reads close h, coalesce_flattenList]
+  rw [xml_layer_tree doc hwf reads close h, coalesce_flattenList]
 
 /-- comparing event streams is comparing trees: two well-formed forests with the same events are equal -/
 theorem events_determine_tree (a b : List Node) (ha : okList a = true) (hb : okList b = true)
